@@ -169,8 +169,7 @@ func (t *Tokenizer) Reset() {
 	// Don't reset keywords as they're constant
 	t.logger = nil
 
-	// Preserve Comments slice capacity but reset length
-	if cap(t.Comments) > 0 {
-		t.Comments = t.Comments[:0]
-	}
+	// The previous Comments slice belongs to whoever read it after the last
+	// Tokenize call; reusing its backing array would overwrite their data.
+	t.Comments = nil
 }
